@@ -97,6 +97,17 @@ class PathLookup(Harness):
                 for n in sp['n']:
                     yield dict(shape=sh, sp='atom', n=n)
                     yield dict(shape=sh, sp='qs', n=n)
+        # deep spines: a path of n bytes walks up to 8n-1 steps, so the small shapes above cannot tell two long paths apart
+        # (both run into an atom).  Left and right spines of depth 7, 8 and 15/16 (thorough: 23/24) do.
+        for d in ((7, 8, 15, 16) if tier == 'quick' else (7, 8, 15, 16, 23, 24)):
+            for side in (0, 1):
+                sh = 'L'
+                for _ in range(d):
+                    sh = [sh, 'L'] if side == 0 else ['L', sh]
+                yield dict(shape=sh, sp='int')
+                for n in range(1, (d + 8) // 8 + 1):
+                    yield dict(shape=sh, sp='atom', n=n)
+                    yield dict(shape=sh, sp='qs', n=n)
 
     def sym_inputs(self, case):
         if case['sp'] == 'int':
